@@ -23,11 +23,11 @@ Definition follow_poll (x : sx) : sx :=
   let r := follow_tick rep (mkFo img_empty t t) in
   SL [sx_files (snd r); sxN (fo_sidecar (fst r))].
 
-(** model entry.  input [snapshots (min max)...; sidecar (0 = no file)], database exists
+(** model entry.  input [snapshots (min max)...; sidecar (0 = no file); levels], database exists
     output 0 resume | 1 no -txid file | 2 history pruned | 3 ahead of latest snapshot *)
 Definition follow_resume (x : sx) : sx :=
   let snaps := map (fun s => (asN (nthx 0 s), asN (nthx 1 s))) (asL (nthx 0 x)) in
-  match resume_check true (asN (nthx 1 x)) snaps with
+  match resume_check true (asN (nthx 1 x)) snaps (dec_levels 0 (asL (nthx 2 x))) with
   | Fresh => sxN 9
   | Resume _ => sxN 0
   | RefuseNoTxid => sxN 1
